@@ -194,6 +194,48 @@ def scratch_dir(tag):
     return tempfile.mkdtemp(prefix='cqv-%s-' % tag, dir=base)
 
 
+
+# --------------------------------------------------------------------------------------
+# coverage-guided stage (clang libFuzzer). The fuzzer is an input generator with feedback; verdicts come from re-running what it
+# leaves behind: artifacts one per process in the fuzz build (classified like every other sanitizer report), corpus units
+# through whatever replay driver the check has.
+
+def run_libfuzzer(c, exe, workdir, corpus_dir, runs, jobs, max_len, env=None, extra=(), seed=1, timeout=6 * 3600):
+    art = os.path.join(workdir, 'art')
+    os.makedirs(art, exist_ok=True)
+    e = dict(env or {})
+    e['ASAN_OPTIONS'] = e.get('ASAN_OPTIONS', ASAN_ENV['ASAN_OPTIONS']) + ':handle_abort=1'
+    run([exe, corpus_dir, '-runs=%d' % runs, '-jobs=%d' % jobs, '-workers=%d' % NCPU, '-max_len=%d' % max_len, '-timeout=25', '-rss_limit_mb=4096',
+         '-artifact_prefix=%s/' % art, '-seed=%d' % seed, '-print_final_stats=1'] + list(extra), env=e, cwd=workdir, timeout=timeout)
+    execd = 0
+    for lg in os.listdir(workdir):
+        if lg.startswith('fuzz-') and lg.endswith('.log'):
+            m = re.search(r'stat::number_of_executed_units: (\d+)', open(os.path.join(workdir, lg), errors='replace').read())
+            execd += int(m.group(1)) if m else 0
+    c.count('libfuzzer_executions', execd)
+    unresolved = []
+    for fn in sorted(os.listdir(art)):
+        ap = os.path.join(art, fn)
+        kind = fn.split('-')[0]
+        c.count('libfuzzer_artifacts_' + kind)
+        rr = run([exe, ap, '-timeout=25', '-rss_limit_mb=4096'], env=e, cwd=workdir, timeout=900)
+        err = rr.stderr.decode('latin1')
+        data = open(ap, 'rb').read()
+        mc = re.search(r'^API-CONTRACT (\S+) (.*)$', err, re.M)
+        key, adv = classify_sanitizer(err, rr.returncode)
+        if mc:
+            c.violation(mc.group(1), 'libFuzzer artifact %s: %s' % (fn, mc.group(2)), files={'input.bin': data})
+        elif key and 'HARNESS/' not in key:
+            c.violation(key, 'libFuzzer artifact %s (%d bytes)' % (fn, len(data)), files={'input.bin': data}, text=err)
+        elif kind == 'timeout' and 'ALARM' in err:
+            c.violation('hang:libfuzzer-target', 'libFuzzer artifact %s needs more than 25 s' % fn, files={'input.bin': data}, text=err)
+        elif key:
+            c.fail_harness('libFuzzer artifact %s: sanitizer report inside the harness: %s' % (fn, err[-500:]))
+        else:
+            c.count('libfuzzer_artifacts_not_reproduced_in_isolation')
+            unresolved.append((ap, kind))
+    return execd, unresolved
+
 # --------------------------------------------------------------------------------------
 # sanitizer report classification
 
